@@ -605,7 +605,7 @@ STATIC = list(globals().get("STATIC", [])) + list(STEAL_STATIC)
 _c02 = {}
 exec(compile(open("/verif/specs/C02/spec.py").read(), "/verif/specs/C02/spec.py", "exec"), _c02)
 for _u in _c02["UNITS"]:
-    if _u.name in ("sts.set_thread_state", "sts.set_active_state"):
+    if _u.name in ("sts.set_thread_state", "sts.set_active_state", "agent.do_yield", "agent.do_resume"):
         _u.name = "c02." + _u.name
         _u.template = "../C02/" + _u.template
         UNITS.append(_u)
